@@ -280,6 +280,9 @@ class RepoClass:
                 return c.members[name]
         return _MISSING
 
+    def init_fields(self):
+        return [(n, d) for n, d in self.all_fields() if not (isinstance(d, FieldSpec) and not d.init)]
+
     def all_fields(self):
         seen, out = {}, []
         for c in reversed(self.mro()):
@@ -656,7 +659,7 @@ class Interp:
         if init is not _MISSING:
             init(obj, *args, **kwargs)
         else:
-            fields = cls.all_fields()
+            fields = cls.init_fields()
             names = [n for n, _ in fields]
             vals = {}
             for i, a in enumerate(args):
